@@ -48,13 +48,22 @@ pub struct Spec {
 }
 
 pub fn scenario_names() -> Vec<&'static str> {
-    vec!["status", "login-transfer", "pipelined-login-transfer", "eager-login-transfer", "cookie-transfer", "eager-cookie-transfer", "login-no-target", "big-frames-slow-discovery", "slow-discovery", "slow-filter", "slow-strategy", "silent-client-slow-routing"]
+    vec!["status", "login-transfer", "pipelined-login-transfer", "eager-login-transfer", "cookie-transfer", "eager-cookie-transfer", "login-no-target", "big-frames-slow-discovery", "slow-discovery", "slow-filter", "slow-strategy", "silent-client-slow-routing",
+        // the same exchanges under frame limits at and beyond the place where a length prefix may have three bytes
+        "status@2097151", "eager-login-transfer@2097151", "eager-cookie-transfer@16384", "pipelined-login-transfer@2147483647"]
 }
 
 fn scenario(name: &str) -> Case {
     let mut case = Case::default();
     case.cfg.auth_secret = Some(SECRET.to_vec());
     case.horizon_ms = 300_000;
+    let name = match name.split_once('@') {
+        Some((n, max)) => {
+            case.cfg.max_packet_length = max.parse().unwrap_or_else(|_| common::machinery("scenario limit"));
+            n
+        }
+        None => name,
+    };
     match name {
         "status" => {
             case.adapters.status = StatusPlan::Full;
